@@ -76,7 +76,7 @@ CLAIMS = {
  "C16": ("TLV.Bytes/Option.Bytes: exact image in the exact, truncated and padded cases, no panic for any 16-bit length; TLVs.Bytes/Options.Serialize: result is the serialisation "
          "of the map in the (arbitrary) iteration order; ReadTLVs1/ReadOptions/ParseOptions: on the serialisation of any well-formed set in any order they return that set "
          "(loop invariants over a ghost permutation), on arbitrary input they terminate, stay within the allocation budget and return a well-formed map; Options.Len == len(Serialize()); accessors total.",
-         "Not covered: Options.Add on a nil map (D18, see DESIGN.md). "),
+         "Options.Add on a nil container loses the option (known finding D18: value receiver; carved out exactly, proved for every non-nil container). "),
  "C17": ("Bit-vector proofs over all 2^64 ids: CombineMsgID places each in-range field at the CMPP bit positions, SplitMsgID returns those fields, split-then-combine is the identity, "
          "every split field is below its decimal print width.",
          "The decimal string form goes through fmt.Sprintf/Sscanf (%0Nd): assumed (A-FMT), not proved. "),
@@ -85,7 +85,7 @@ CLAIMS = {
          "Assumed, not proved (A-TOK): that for receipts built from the eight keys in any order and subset the first occurrence of each key token is its field (a combinatorial fact about the fixed token set under the property's value restrictions). strings.Index is an assumed model. "),
  "C19": ("ToValidatePeriod proved for all parsable durations below 4096 h: zero -> empty string; negative or unparsable -> error; relative form = 0000 DD hh mm ss 000R with the four fields equal to the integer quotients of the nanosecond count, 16 characters, "
          "and a lemma (pure integer arithmetic) that the fields add up to the duration in whole seconds; a relative period of 31 days or more is refused; absolute form = Format(now+d) ++ 000+, 16 characters. Repaired: D20.",
-         "package time, fmt %02d and the float64 duration accessors are assumed models (A-TIMEPKG, A-FMT2, A-FLOAT: exact below 4096 h, nothing claimed above); the two-digit year of the absolute form (D27: now+d a century ahead) is outside what these models can express and is NOT decided. "),
+         "package time, fmt %02d and the float64 duration accessors are assumed models (A-TIMEPKG, A-FMT2, A-FLOAT: exact below 4096 h, nothing claimed above); the absolute form is pinned only as Format(now+d) ++ 000+ with d below 36500 days (an absolute period of 36500 days or more is refused: D27, repaired); that the two-digit year then denotes the intended instant rests on the reader interpreting it within the coming century. "),
  "C20": ("Contracts on every method of packet.Writer and packet.Reader (append-only view, written==len(view) invariant, sticky errors, readers never return more than remains, "
          "observer-form clauses used by the PDU level) proved against the SSA of the real bodies; the T1 bridge lemmas 'read primitive inverts write primitive' are re-proved from T0 on every run. "
          "Operation histories are covered by the data-structure invariant, not by enumeration.", ""),
